@@ -264,7 +264,7 @@ def c19_alias(split, pa1, va1, pa2, va2, pva, mi, side):
                 and (fa.get('delete') is False or fa.get('allow_new') is False or fa.get('safe') is False):
             diffs = [(x, y) for x, y in zip(d0, d1) if x != y]
             # fields 5..7 (effective delete / allow_new / safe) and 10 (what the list hands to its own children) derive from inherited flags
-            if all(x[0] in ('x.inner.v', 'y.first.v', 'y.second.inner.v') and x[:5] == y[:5] and x[8:10] == y[8:10] for x, y in diffs) \
+            if all(x[0].startswith(('x.inner.v', 'y.first.v', 'y.second.inner.v')) and x[:5] == y[:5] and x[8:10] == y[8:10] for x, y in diffs) \
                     and known('C19-alias-two-parents'):
                 return True
         return False
